@@ -326,11 +326,12 @@ func runC01(r *Run, replay *Case) {
 					if !r.Thorough() && vi >= len(c01Nasty) && (vi+idx)%23 != 0 {
 						continue
 					}
-					// thorough: the full alphabet enumeration up to length 2 everywhere, length 3 on a rotating seventh (a third for the original six sinks)
-					if r.Thorough() && len(val) > 0 && vi >= len(c01Nasty)+len(c01Symbols)+18*19 {
-						mod := 3
-						if hostSink {
-							mod = 7
+					// thorough: the nasty list and every single symbol everywhere; the alphabet enumeration of length 2 on a rotating quarter and
+					// of length 3 on a rotating 61st of the (sink, neighbourhood, construct) combinations — about 600 000 cases in all
+					if r.Thorough() && vi >= len(c01Nasty)+len(c01Symbols) {
+						mod := 4
+						if vi >= len(c01Nasty)+len(c01Symbols)+18*19 {
+							mod = 61
 						}
 						if (vi+idx)%mod != 0 {
 							continue
